@@ -110,6 +110,13 @@ impl LoadBalancer {
   pub async fn wait_for_connection(&self) -> Result<(), ZmqError> {
     let notify = self.notify_waiters.clone();
     loop {
+      // Register as a waiter before checking: `notify_waiters()` only wakes futures that are
+      // already registered, so an add_connection()/deactivate() landing between the check and
+      // the await would otherwise be lost.
+      let notified = notify.notified();
+      tokio::pin!(notified);
+      notified.as_mut().enable();
+
       if self.deactivated.load(std::sync::atomic::Ordering::Acquire) {
         return Err(ZmqError::InvalidState("Socket closed".into()));
       }
@@ -118,7 +125,7 @@ impl LoadBalancer {
       }
       #[cfg(rzmq_verif)]
       crate::verif::sched::point("lb.wait.checked");
-      notify.notified().await;
+      notified.await;
     }
   }
 
